@@ -364,6 +364,7 @@ impl FileHasher<'_> {
 
         let hash = hash?;
         let exit_status = transform_output.child.lock().unwrap().wait()?;
+        transform_output.check_output()?;
         if !exit_status.success() {
             let captured_err = transform_output
                 .err_stream
